@@ -1178,6 +1178,17 @@ def optional_value_flags(ctx, rule, prog, crate):
                 got = "unwritten"
             elif stored[0] == "adt" and stored[2] == "Some" and stored[3] and stored[3][0][0] == "int":
                 got = "Some(%s)" % ("true" if stored[3][0][1] else "false")
+            elif stored[0] == "adt" and stored[2] == "Some" and stored[3] and stored[3][0][0] == "site" and \
+                    stored[3][0][1].rsplit("::", 1)[-1] == "unwrap_or" and len(stored[3][0][3]) == 2 and stored[3][0][3][1][0] == "int":
+                # Some(values.next().copied().unwrap_or(d)): no value -> d, a value -> itself
+                x = stored[3][0][3][0]
+                while x[0] == "site" and x[1].rsplit("::", 1)[-1] in ("copied", "cloned") and x[3]:
+                    x = x[3][0]
+                if x[0] == "site" and x[1].endswith("::next") and present is True and nxt is None:
+                    d_ = "true" if stored[3][0][3][1][1] else "false"
+                    rows |= {(True, "none", None, "Some(%s)" % d_), (True, "some", True, "Some(true)"), (True, "some", False, "Some(false)")}
+                    continue
+                got = "other"
             else:
                 got = "other"
             rows.add((present, nxt, val, got))
